@@ -7,7 +7,9 @@ import (
 	"go/constant"
 	"go/token"
 	"go/types"
+	"os"
 	"strings"
+	"time"
 
 	"golang.org/x/tools/go/ssa"
 )
@@ -58,10 +60,11 @@ type Frame struct {
 }
 
 type inputRec struct {
-	Name string
-	T    *Term
-	Arr  *Arr // for array havoc inputs
-	Kind string
+	Name    string
+	T       *Term
+	Arr     *Arr // for array havoc inputs
+	Kind    string
+	Entries [][2]uint64 // concrete mode: array contents
 }
 
 type execStats struct {
@@ -103,6 +106,10 @@ type Exec struct {
 	curFrame *Frame
 	notes    []noteRec
 	pools    map[string][]Value
+	known    map[*Term]uint64
+	fixed    []TapeEntry // concrete mode: input values
+	fixedPos int
+	model    map[string]uint64 // an assignment of the input variables satisfying the path condition (nil = none known)
 }
 
 type noteRec struct {
@@ -129,10 +136,68 @@ func (ex *Exec) assertPC(c *Term) {
 	}
 	ex.pc = append(ex.pc, c)
 	ex.sv.Assert(c)
+	if ex.model != nil {
+		if c.hasSel || ex.ts.Eval(c, ex.model, map[*Term]uint64{}) == 0 {
+			ex.model = nil
+		}
+	}
+	ex.ts.learn(c)
+}
+
+// fetchModel reads the values of all scalar inputs after a Sat answer (before the scope is popped).
+func (ex *Exec) fetchModel() map[string]uint64 {
+	var terms []*Term
+	for _, in := range ex.inputs {
+		if in.T != nil && in.T.op == OpVar {
+			terms = append(terms, in.T)
+		}
+	}
+	vals, ok := ex.sv.GetValues(terms)
+	if !ok {
+		return nil
+	}
+	m := make(map[string]uint64, len(terms))
+	for i, t := range terms {
+		m[t.name] = vals[i]
+	}
+	return m
+}
+
+// feasibleM is feasible() that also returns a model of pc ∧ c when satisfiable.
+func (ex *Exec) feasibleM(c *Term) (bool, map[string]uint64) {
+	if c.IsFalse() {
+		return false, nil
+	}
+	gen := ex.sv.deaths
+	ex.sv.Push()
+	ex.sv.Assert(c)
+	t0 := time.Now()
+	r := ex.sv.Check()
+	if d := time.Since(t0); d > 300*time.Millisecond && os.Getenv("VERIF_DUMPSLOW") != "" {
+		f, _ := os.Create(fmt.Sprintf("%s/slow_%d_%d_%s.smt2", os.Getenv("VERIF_DUMPSLOW"), os.Getpid(), ex.sv.stats.Queries, r))
+		ex.ts.DumpStandalone(f, append(append([]*Term{}, ex.pc...), c))
+		f.Close()
+	}
+	var m map[string]uint64
+	if r == Sat && ex.sv.deaths == gen {
+		m = ex.fetchModel()
+	}
+	if ex.sv.deaths == gen {
+		ex.sv.Pop()
+	}
+	ex.checkSolverAlive()
+	switch r {
+	case Unsat:
+		return false, nil
+	case Unknown:
+		ex.path.Inconclusive = append(ex.path.Inconclusive, "unknown feasibility")
+		return true, nil
+	}
+	return true, m
 }
 
 func (ex *Exec) checkSolverAlive() {
-	if ex.sv.gen != ex.solverGen {
+	if ex.sv.deaths != ex.solverGen {
 		ex.abort("solver", "solver restarted: "+ex.sv.lastErr)
 	}
 }
@@ -145,7 +210,27 @@ func (ex *Exec) feasible(c *Term) bool {
 	if c.IsFalse() {
 		return false
 	}
+	if ex.model != nil && !c.hasSel && ex.ts.Eval(c, ex.model, map[*Term]uint64{}) != 0 {
+		return true // the cached model of the path condition also satisfies c
+	}
+	t0 := time.Now()
 	r := ex.sv.CheckWith(c)
+	if d := time.Since(t0); d > 300*time.Millisecond && os.Getenv("VERIF_DEBUG") != "" {
+		fn := ""
+		if ex.curFrame != nil {
+			fn = ex.curFrame.fn.String()
+		}
+		cs := c.String()
+		if len(cs) > 400 {
+			cs = cs[:400]
+		}
+		fmt.Fprintf(os.Stderr, "SLOW feasibility %v res=%v in %s pcsize=%d cond=%s\n", d, r, fn, len(ex.pc), cs)
+		if dir := os.Getenv("VERIF_DUMPSLOW"); dir != "" {
+			f, _ := os.Create(fmt.Sprintf("%s/slow_%d_%d.smt2", dir, os.Getpid(), ex.sv.stats.Queries))
+			ex.ts.DumpStandalone(f, append(append([]*Term{}, ex.pc...), c))
+			f.Close()
+		}
+	}
 	ex.checkSolverAlive()
 	switch r {
 	case Unsat:
@@ -177,18 +262,44 @@ func (ex *Exec) decide(c *Term, likely bool) bool {
 	}
 	nc := ex.ts.BNot(c)
 	var res, both bool
-	first, second := nc, c // query unlikely side first
-	if !likely {
-		first, second = c, nc
-	}
-	if !ex.feasible(first) {
-		// the other side must be feasible (pc is satisfiable by invariant)
-		res = likely
-	} else if !ex.feasible(second) {
-		res = !likely
+	var altModel map[string]uint64 // model of the side not taken (handed to the forked work item)
+	if ex.model != nil && !c.hasSel {
+		mv := ex.ts.Eval(c, ex.model, map[*Term]uint64{}) != 0
+		other := c
+		if mv {
+			other = nc
+		}
+		of, om := ex.feasibleM(other)
+		both = of
+		if both {
+			res = likely
+		} else {
+			res = mv
+		}
+		if res != mv {
+			altModel = ex.model
+			ex.model = om
+		} else {
+			altModel = om
+		}
 	} else {
-		both = true
-		res = likely
+		first, second := nc, c // query unlikely side first
+		if !likely {
+			first, second = c, nc
+		}
+		f1, m1 := ex.feasibleM(first)
+		if !f1 {
+			// the other side must be feasible (pc is satisfiable by invariant)
+			res = likely
+		} else if f2, m2 := ex.feasibleM(second); !f2 {
+			res = !likely
+			ex.model = m1
+		} else {
+			both = true
+			res = likely
+			ex.model = m2
+			altModel = m1
+		}
 	}
 	ex.pos++
 	if both {
@@ -196,7 +307,7 @@ func (ex *Exec) decide(c *Term, likely bool) bool {
 		alt := make([]Decision, len(ex.trace)+1)
 		copy(alt, ex.trace)
 		alt[len(ex.trace)] = Decision{Kind: 0, B: !res}
-		ex.pending = append(ex.pending, WorkItem{Job: ex.job, Prefix: alt})
+		ex.pending = append(ex.pending, WorkItem{Job: ex.job, Prefix: alt, Model: altModel})
 	}
 	ex.trace = append(ex.trace, Decision{Kind: 0, B: res, Forced: !both})
 	if res {
@@ -212,6 +323,12 @@ func (ex *Exec) concretize(t *Term) uint64 {
 	if t.IsConst() {
 		return t.val
 	}
+	if v, ok := ex.known[t]; ok {
+		return v
+	}
+	defer func() {
+		// remember the value chosen on this path (only reached on normal return)
+	}()
 	ex.stats.branches++
 	var excl []uint64
 	if ex.pos < len(ex.prefix) {
@@ -220,6 +337,8 @@ func (ex *Exec) concretize(t *Term) uint64 {
 			ex.pos++
 			ex.trace = append(ex.trace, d)
 			ex.assertPC(ex.ts.Eq(t, ex.ts.Const(t.w, d.V)))
+			ex.known[t] = d.V
+			ex.ts.subst[t] = ex.ts.Const(t.w, d.V)
 			return d.V
 		}
 		if d.Kind != 2 {
@@ -228,30 +347,73 @@ func (ex *Exec) concretize(t *Term) uint64 {
 		excl = d.Excl
 	}
 	ex.pos++
-	// find a value not in excl
-	ex.sv.Push()
-	for _, e := range excl {
-		ex.sv.Assert(ex.ts.Ne(t, ex.ts.Const(t.w, e)))
+	// find a value not in excl: from the cached model when it qualifies, else from the solver
+	var v uint64
+	have := false
+	if ex.model != nil && !t.hasSel {
+		v = ex.ts.Eval(t, ex.model, map[*Term]uint64{})
+		have = true
+		for _, e := range excl {
+			if e == v {
+				have = false
+			}
+		}
 	}
-	r := ex.sv.Check()
-	ex.checkSolverAlive()
-	if r == Unsat {
+	if !have {
+		ex.sv.Push()
+		for _, e := range excl {
+			ex.sv.Assert(ex.ts.Ne(t, ex.ts.Const(t.w, e)))
+		}
+		r := ex.sv.Check()
+		ex.checkSolverAlive()
+		if r == Unsat {
+			ex.sv.Pop()
+			ex.abort("dead", "no further values")
+		}
+		if r == Unknown {
+			ex.sv.Pop()
+			ex.path.Inconclusive = append(ex.path.Inconclusive, "unknown in concretize")
+			ex.abort("solver", "unknown while enumerating values")
+		}
+		vals, ok := ex.sv.GetValues([]*Term{t})
+		var m map[string]uint64
+		if ok {
+			m = ex.fetchModel()
+		}
 		ex.sv.Pop()
-		ex.abort("dead", "no further values")
+		if !ok {
+			ex.abort("solver", "get-value failed: "+ex.sv.lastErr)
+		}
+		v = vals[0]
+		ex.model = m
 	}
-	if r == Unknown {
+	// is there any other value? (avoids replaying a path that would die immediately)
+	more := true
+	var altModel map[string]uint64
+	{
+		ex.sv.Push()
+		for _, e := range excl {
+			ex.sv.Assert(ex.ts.Ne(t, ex.ts.Const(t.w, e)))
+		}
+		ex.sv.Assert(ex.ts.Ne(t, ex.ts.Const(t.w, v)))
+		r2 := ex.sv.Check()
+		if r2 == Sat {
+			altModel = ex.fetchModel()
+		}
 		ex.sv.Pop()
-		ex.path.Inconclusive = append(ex.path.Inconclusive, "unknown in concretize")
-		ex.abort("solver", "unknown while enumerating values")
+		ex.checkSolverAlive()
+		if r2 == Unsat {
+			more = false
+		}
 	}
-	vals, ok := ex.sv.GetValues([]*Term{t})
-	ex.sv.Pop()
-	if !ok {
-		ex.abort("solver", "get-value failed: "+ex.sv.lastErr)
-	}
-	v := vals[0]
-	if len(excl) >= ex.job.MaxEnum {
-		ex.path.Inconclusive = append(ex.path.Inconclusive, fmt.Sprintf("value enumeration cap %d reached", ex.job.MaxEnum))
+	if !more {
+		// unique remaining value: no fork
+	} else if len(excl) >= ex.job.MaxEnum {
+		where := ""
+		for f := ex.curFrame; f != nil && len(where) < 300; f = f.caller {
+			where += " < " + f.fn.String()
+		}
+		ex.path.Inconclusive = append(ex.path.Inconclusive, fmt.Sprintf("value enumeration cap %d reached in%s", ex.job.MaxEnum, where))
 	} else {
 		alt := make([]Decision, len(ex.trace)+1)
 		copy(alt, ex.trace)
@@ -259,11 +421,13 @@ func (ex *Exec) concretize(t *Term) uint64 {
 		copy(ne, excl)
 		ne[len(excl)] = v
 		alt[len(ex.trace)] = Decision{Kind: 2, Excl: ne}
-		ex.pending = append(ex.pending, WorkItem{Job: ex.job, Prefix: alt})
+		ex.pending = append(ex.pending, WorkItem{Job: ex.job, Prefix: alt, Model: altModel})
 		ex.stats.forks++
 	}
 	ex.trace = append(ex.trace, Decision{Kind: 1, V: v})
 	ex.assertPC(ex.ts.Eq(t, ex.ts.Const(t.w, v)))
+	ex.known[t] = v
+	ex.ts.subst[t] = ex.ts.Const(t.w, v)
 	return v
 }
 
@@ -330,7 +494,16 @@ func (ex *Exec) get(fr *Frame, v ssa.Value) Value {
 	if !ok {
 		panic(fmt.Sprintf("internal: no register for %s in %s", v.Name(), fr.fn))
 	}
-	return fr.regs[i]
+	r := fr.regs[i]
+	if len(ex.ts.subst) > 0 {
+		if t, ok := r.(*Term); ok && t.op != OpConst {
+			if c, ok := ex.ts.subst[t]; ok {
+				fr.regs[i] = c
+				return c
+			}
+		}
+	}
+	return r
 }
 
 func (ex *Exec) constValue(c *ssa.Const) Value {
@@ -533,7 +706,7 @@ func (ex *Exec) prepareCall(fr *Frame, c *ssa.CallCommon) (Value, []Value) {
 		if recv.typ == nil {
 			ex.goPanic("method invoked on nil interface")
 		}
-		m := ex.w.prog.LookupMethod(recv.typ, c.Method.Pkg(), c.Method.Name())
+		m := ex.lookupMethod(recv.typ, c.Method.Pkg(), c.Method.Name())
 		if m == nil {
 			panic(fmt.Sprintf("internal: no method %s on %s", c.Method.Name(), recv.typ))
 		}
@@ -851,6 +1024,9 @@ func (ex *Exec) sliceOp(fr *Frame, in *ssa.Slice) Value {
 		}
 		return a[l:h]
 	case Slice:
+		if a.obj == nil && hi == nil {
+			hi = ts.Const(64, 0)
+		}
 		if hi == nil {
 			hi = a.len
 		}
@@ -871,6 +1047,10 @@ func (ex *Exec) sliceOp(fr *Frame, in *ssa.Slice) Value {
 		}
 		ex.boundsCheck(ts.Ule(hi, capT), "slice bounds out of range [:high] with capacity")
 		ex.boundsCheck(ts.Ule(lo, hi), "slice bounds out of range [low:high]")
+		if !lo.IsConst() && os.Getenv("VERIF_CONCSLICE") != "" {
+			// policy: slice offsets are enumerated rather than kept symbolic (bounded by the buffer size)
+			lo = ts.Const(64, ex.concretize(lo))
+		}
 		return Slice{obj: a.obj, off: ts.Add(a.off, mulConst(ts, lo, a.es)), len: ts.Sub(hi, lo), cap: ts.Sub(capT, lo), es: a.es}
 	case Pointer:
 		if a.obj == nil {
@@ -1362,6 +1542,14 @@ func (ex *Exec) copyBuiltin(dst Slice, srcv Value) Value {
 	}
 	es := dst.es
 	cells := n * es
+	// policy: copies never use symbolic offsets; the feasible offsets are enumerated instead
+	// (bounded by the buffer size), which keeps all byte-buffer traffic at concrete indices.
+	if !dst.off.IsConst() {
+		dst.off = ts.Const(64, ex.concretize(dst.off))
+	}
+	if !src.off.IsConst() {
+		src.off = ts.Const(64, ex.concretize(src.off))
+	}
 	if dst.off.IsConst() && src.off.IsConst() {
 		d0, s0 := int(dst.off.val), int(src.off.val)
 		if dst.obj == src.obj && d0 == s0 {
@@ -1456,4 +1644,13 @@ func (ex *Exec) appendBuiltin(fr *Frame, s Slice, more Value, et types.Type) Val
 
 func fnName(fn *ssa.Function) string {
 	return strings.TrimPrefix(fn.String(), "github.com/pierrec/lz4/v4")
+}
+
+// lookupMethod returns the method implementation or nil when typ has no such method.
+func (ex *Exec) lookupMethod(typ types.Type, pkg *types.Package, name string) *ssa.Function {
+	sel := ex.w.prog.MethodSets.MethodSet(typ).Lookup(pkg, name)
+	if sel == nil {
+		return nil
+	}
+	return ex.w.prog.MethodValue(sel)
 }
